@@ -118,11 +118,13 @@ func vBuildScript(n int, dmax int) []vRefFrame {
 	return script
 }
 
-// vRecvSrv / vRecvCli: under the engine the real RecvMsg (proto.Unmarshal is
-// modelled as attaching the bytes); in a native replay the symbolic payload is
-// not valid protobuf, so the same steps are taken without the decoding.
-func vRecvSrv(st *tunnelServerStream, m *wrapperspb.BytesValue) error {
-	if !verifNative() {
+// vRecvSrv / vRecvCli: under the engine always the real RecvMsg (proto.Unmarshal is
+// modelled as attaching the bytes). In a native replay the symbolic payload is not
+// valid protobuf, so where the reference reading expects a message to come back the
+// same steps are taken without the decoding; every other case (errors, end of
+// stream, framing violations) goes through the real RecvMsg natively as well.
+func vRecvSrv(st *tunnelServerStream, m *wrapperspb.BytesValue, expectData bool) error {
+	if !verifNative() || !expectData {
 		return st.RecvMsg(m)
 	}
 	data, ok, err := st.readMsg()
@@ -136,8 +138,8 @@ func vRecvSrv(st *tunnelServerStream, m *wrapperspb.BytesValue) error {
 	return nil
 }
 
-func vRecvCli(st *tunnelClientStream, m *wrapperspb.BytesValue) error {
-	if !verifNative() {
+func vRecvCli(st *tunnelClientStream, m *wrapperspb.BytesValue, expectData bool) error {
+	if !verifNative() || !expectData {
 		return st.RecvMsg(m)
 	}
 	data, ok, err := st.readMsg()
@@ -194,8 +196,8 @@ func verifH_ReadSrv() {
 	pos := 0
 	for c := 0; c < calls; c++ {
 		m := &wrapperspb.BytesValue{}
-		err := vRecvSrv(st, m)
 		want, next, ok, bad := vRefNext(script, pos)
+		err := vRecvSrv(st, m, ok && !bad)
 		if err == nil {
 			verifCover("message")
 			// a message is returned only if the peer sent exactly that message next
@@ -234,7 +236,7 @@ func verifH_ReadSrv() {
 			}
 		}
 		// errors are sticky
-		err2 := vRecvSrv(st, &wrapperspb.BytesValue{})
+		err2 := vRecvSrv(st, &wrapperspb.BytesValue{}, false)
 		verifAssert(err2 != nil, "C01+C16.no-message-after-an-error")
 		break
 	}
@@ -272,7 +274,8 @@ func verifH_ReadCli() {
 		finalErr = status.Error(codes.Code(verifU32("code")), "failed")
 		verifAssume(status.Code(finalErr) != codes.OK)
 	}
-	st.done.Store(&errHolder{finalErr})
+	// the queue reports "no more" only after the RPC was finished (the close frame was processed)
+	q.onEnd = func() { st.done.Store(&errHolder{finalErr}) }
 
 	calls := 1
 	if st.isServerStream {
@@ -281,8 +284,8 @@ func verifH_ReadCli() {
 	pos := 0
 	for k := 0; k < calls; k++ {
 		m := &wrapperspb.BytesValue{}
-		err := vRecvCli(st, m)
 		want, next, ok, bad := vRefNext(script, pos)
+		err := vRecvCli(st, m, ok && !bad)
 		if err == nil {
 			verifCover("message")
 			verifAssert(ok && !bad, "C01+C09.cli-no-fabricated-or-malformed-message")
@@ -318,8 +321,20 @@ func verifH_ReadCli() {
 				verifAssert(status.Code(err) == codes.Internal, "C16.second-response-is-internal-error")
 			}
 		}
-		err2 := vRecvCli(st, &wrapperspb.BytesValue{})
+		err2 := vRecvCli(st, &wrapperspb.BytesValue{}, false)
 		verifAssert(err2 != nil, "C01+C16.cli-no-message-after-an-error")
+		if bad && q.ended == 0 {
+			// the caller gives up on an RPC whose peer violated the framing: the peer must be told
+			// (a cancel frame), otherwise it keeps the stream and its handler for ever
+			verifDrain()
+			ncancel := 0
+			for _, f := range car.sent {
+				if _, isC := f.Frame.(*tunnelpb.ClientToServer_Cancel); isC && f.StreamId == 5 {
+					ncancel++
+				}
+			}
+			verifAssert(ncancel == 1, "C07+C09+C14.protocol-error-cancels-the-rpc-at-the-peer")
+		}
 		break
 	}
 }
